@@ -81,10 +81,14 @@ func (m *AuthResponseMsg) Decode(r io.Reader) (err error) {
 	}
 
 	// Read the signature bytes
-	m.Signature = make([]byte, signatureLen)
-	_, err = io.ReadFull(r, m.Signature)
+	// The declared length comes from the wire: do not pre-allocate from it,
+	// read at most that many bytes instead.
+	m.Signature, err = io.ReadAll(io.LimitReader(r, int64(signatureLen)))
 	if err != nil {
 		return fmt.Errorf("failed to read signature: %w", err)
+	}
+	if uint32(len(m.Signature)) != signatureLen {
+		return fmt.Errorf("failed to read signature: %w", io.ErrUnexpectedEOF)
 	}
 	return nil
 }
